@@ -193,11 +193,11 @@ M("e2-block-no-pop", "C14", "fire E2", "src/compile.rs",
   """        expr = stmt.compile(prg, env, circuit);
     }""", "block scope never popped: shadowing bindings outlive their block")
 M("e2-fncall-no-pop", "C14", "fire E2", "src/compile.rs",
-  """                let body = compile_block(&fn_def.body, prg, env, circuit);
-                env.pop();
-                body""",
-  """                let body = compile_block(&fn_def.body, prg, env, circuit);
-                body""", "callee parameter scope stays on the caller's environment")
+  """                    bindings.push((param.name.clone(), arg));
+                    env.pop();
+                }""",
+  """                    bindings.push((param.name.clone(), arg));
+                }""", "the scope in which an argument is lowered stays on the caller's environment")
 M("e3-varassign-let", "C14", "fire E3", "src/compile.rs",
   """                env.assign_mut(identifier.clone(), value);""",
   """                env.let_in_current_scope(identifier.clone(), value);""", "assignment inside a block creates a new binding that dies with the block")
@@ -230,11 +230,13 @@ M("e6-foreach-clone-per-iteration", "C14", "fire E6", "src/compile.rs",
   """                    for stmt in body {
                         stmt.compile(prg, env, circuit);
                     }
+                    env.pop();
                     i += elem_in_bits;""",
   """                    let mut env_iter = env.clone();
                     for stmt in body {
                         stmt.compile(prg, &mut env_iter, circuit);
                     }
+                    env.pop();
                     i += elem_in_bits;""", "loop body assignments are invisible to later iterations")
 M("e4-if-clone-order", "C14", "quiet", "src/compile.rs",
   """                let mut env_if_true = env.clone();
@@ -399,7 +401,9 @@ REVERT("revert-numeric-range", "C09", "fire L1", "45196da", "pre-fix tree: out-o
 REVERT("revert-enum-arity", "C09", "fire L2", "2937f1e", "pre-fix tree: enum literal arity unchecked")
 REVERT("revert-struct-gate", "C09", "fire L3", "73e4da1", "gate keyed by name only: a duplicated field hides a missing one, the writer panics")
 REVERT("revert-struct-writer-order", "C09", "fire L3", "151041d", "writer encodes struct fields in literal order behind an order-insensitive gate")
-REVERT("revert-range-checked-sub", "C09", "fire L5", "6e0d291", "pre-fix tree: max - min underflows in the gate")
+M("revert-range-checked-sub", "C09", "fire L5", "src/literal.rs",
+  """                    && max.checked_sub(*min) == Some(*size as u64)""",
+  """                    && max - min == *size as u64""", "pre-fix form of 6e0d291: max - min underflows in the gate")
 M("l4-own-tag-width", "C09", "fire L4", "src/literal.rs",
   """                let enum_def = checked.enum_defs.get(enum_name).unwrap();
                 let tag_size = enum_tag_size(enum_def);
@@ -488,8 +492,8 @@ M("t6-match-shared-scope", "C17", "fire T6", "src/check.rs",
                     match (pattern, expr) {""", "needs a matching pop after the loop: see seed C17-a for the complete change; here the scope is never popped")
 M("t3-shift-reorder", "C17", "quiet", "src/check.rs",
   """                    expect_num_type(&x.ty, x.meta)?;
-                    check_or_constrain_unsigned(&mut y, UnsignedNumType::U8)?;""",
-  """                    check_or_constrain_unsigned(&mut y, UnsignedNumType::U8)?;
+                    check_type(&mut y, &Type::Unsigned(UnsignedNumType::U8))?;""",
+  """                    check_type(&mut y, &Type::Unsigned(UnsignedNumType::U8))?;
                     expect_num_type(&x.ty, x.meta)?;""", "behaviour-preserving for acceptance: checks reordered")
 
 # ---------------------------------------------------------------- C07
@@ -1053,7 +1057,7 @@ M("u2-swapped-lookup-guarded", "C15", "fire U2", "src/circuit.rs",
                 _ => None,""", "seed C15-b: swapped lookup only for descending operands")
 M("t7-unify-wildcard", "C17", "fire T7", "src/check.rs",
   """        (Type::Unsigned(UnsignedNumType::Unspecified), Type::Unsigned(ty2)) => {
-            check_or_constrain_unsigned(e1, *ty2)?;
+            constrain_type(e1, &Type::Unsigned(*ty2))?;
             Type::Unsigned(*ty2)
         }""",
   """        (Type::Unsigned(UnsignedNumType::Unspecified), ty2) if !matches!(e1.inner, ExprEnum::Identifier(_)) => {
@@ -1387,14 +1391,14 @@ M("o8-roots-filtered-off-by-one", "C04", "fire O8", "src/circuit.rs",
 # ---------------------------------------------------------------- C05
 M("s2-shift-left-operand-only-stamped", "C05", "fire S2", "src/check.rs",
   """            Op::ShiftLeft | Op::ShiftRight => constrain_type(a, ty)?,""",
-  """            Op::ShiftLeft | Op::ShiftRight => overwrite_ty_if_necessary(&mut a.ty, ty),""", "seed C05-a: literals inside a compound left operand of a shift keep their default width")
+  """            Op::ShiftLeft | Op::ShiftRight => overwrite_ty_if_necessary(&mut a.ty, ty, false),""", "seed C05-a: literals inside a compound left operand of a shift keep their default width")
 M("s2-if-else-branch-not-constrained", "C05", "fire S2", "src/check.rs",
   """            constrain_type(then_expr, ty)?;
             constrain_type(else_expr, ty)?;""",
   """            constrain_type(then_expr, ty)?;
-            overwrite_ty_if_necessary(&mut else_expr.ty, ty);""", "else branch keeps unconstrained literals")
+            overwrite_ty_if_necessary(&mut else_expr.ty, ty, false);""", "else branch keeps unconstrained literals")
 M("s2-match-first-clause-only", "C05", "fire S2", "src/check.rs",
-  """            for (_, body) in clauses {
+  """            for (_, body) in clauses.iter_mut() {
                 constrain_type(body, ty)?;
             }""",
   """            if let Some((_, body)) = clauses.first_mut() {
@@ -1419,17 +1423,17 @@ M("s1-wires-one-short-for-zero-sized", "C05", "fire S1", "src/compile.rs",
                     wire += 1;
                 }
                 input_gates.push(type_size);
-                env.let_in_current_scope(param.name.clone(), wires);""",
+                params.push((param.name.clone(), wires));""",
   """                for _ in 0..type_size.max(1) {
                     wires.push(wire);
                     wire += 1;
                 }
                 input_gates.push(type_size);
-                env.let_in_current_scope(param.name.clone(), wires);""", "zero-sized parameters get one wire although their party has no bits")
+                params.push((param.name.clone(), wires));""", "zero-sized parameters get one wire although their party has no bits")
 M("s3-build-caps-output-width", "C05", "fire S3", "src/compile.rs",
-  """        let output_gates = compile_block(&fn_def.body, self, &mut env, &mut circuit);
+  """        env.pop();
         Ok((circuit.build(output_gates), fn_def, const_sizes))""",
-  """        let output_gates = compile_block(&fn_def.body, self, &mut env, &mut circuit);
+  """        env.pop();
         Ok((circuit.build(output_gates[..output_gates.len().min(64)].to_vec()), fn_def, const_sizes))""", "results wider than 64 bits are cut off")
 M("s4-b-rows-not-truncated", "C05", "fire S4", "src/compile.rs",
   """        let tag_b = b.remove(join_ty_size);
@@ -1476,12 +1480,12 @@ M("v2-quiet-struct-size-added-before-compare", "C01", "quiet", "src/compile.rs",
                             return struct_expr[bits - bits_of_field..bits].to_vec();
                         }""", "behaviour-preserving: size added first, slice [bits - size .. bits]")
 M("v3-foreach-steps-by-one", "C01", "fire V3", "src/compile.rs",
-  """                    i += elem_in_bits;
-                }
-                env.pop();""",
-  """                    i += 1;
-                }
-                env.pop();""", "for-each advances one bit per iteration")
+  """                    env.pop();
+                    i += elem_in_bits;
+                }""",
+  """                    env.pop();
+                    i += 1;
+                }""", "for-each advances one bit per iteration")
 M("v4-array-literal-reversed", "C01", "fire V4", "src/compile.rs",
   """                for elem in elems {
                     wires.extend(elem.compile(prg, env, circuit));
@@ -1775,8 +1779,7 @@ M("v8-assign-read-tree-fewer-layers", "C01", "fire V8", "src/compile.rs",
 
 # ---------------------------------------------------------------- C03 A5 (known finding): the candidate repair must be quiet
 M("a5-quiet-candidate-repair", "C03", "quiet", "src/compile.rs",
-  """                        if n < bits {
-                            let mut expr = y.clone();
+  """                            let mut expr = y.clone();
                             for _ in 0..n - 1 {
                                 expr = Box::new(Expr {
                                     inner: ExprEnum::Op(Op::Add, expr, y.clone()),
@@ -1784,26 +1787,26 @@ M("a5-quiet-candidate-repair", "C03", "quiet", "src/compile.rs",
                                     ty: ty.clone(),
                                 });
                             }
-                            if is_neg {
-                                return Expr {
+                            let product = if is_neg {
+                                Expr {
                                     inner: ExprEnum::UnaryOp(UnaryOp::Neg, expr),
                                     meta,
                                     ty: ty.clone(),
                                 }
-                                .compile(prg, env, circuit);
+                                .compile(prg, env, circuit)
                             } else {
-                                return expr.compile(prg, env, circuit);
-                            }
-                        }""",
-  """                        if n < bits {
+                                expr.compile(prg, env, circuit)
+                            };""",
+  """                            // A negative constant negates the operand first: summing up `-y` never
+                            // leaves the type unless the product does.
                             let y = if is_neg {
                                 Box::new(Expr {
-                                    inner: ExprEnum::UnaryOp(UnaryOp::Neg, y.clone()),
+                                    inner: ExprEnum::UnaryOp(UnaryOp::Neg, y),
                                     meta,
                                     ty: ty.clone(),
                                 })
                             } else {
-                                y.clone()
+                                y
                             };
                             let mut expr = y.clone();
                             for _ in 0..n - 1 {
@@ -1813,8 +1816,7 @@ M("a5-quiet-candidate-repair", "C03", "quiet", "src/compile.rs",
                                     ty: ty.clone(),
                                 });
                             }
-                            return expr.compile(prg, env, circuit);
-                        }""", "the candidate repair of the known finding: operand negated first (no KNOWN-FINDING line expected either)")
+                            let product = expr.compile(prg, env, circuit);""", "the candidate repair of the known finding: operand negated first (no KNOWN-FINDING line expected either)")
 
 # ---------------------------------------------------------------- eighth seed batch as mutants
 M2("p2-join-snapshot-hoisted", "C02", "fire P2", [
@@ -1908,10 +1910,8 @@ M("v12-eq-is-xor", "C01", "fire V12", "src/circuit.rs",
 
 # ---------------------------------------------------------------- ninth seed batch as mutants
 M("t8-match-clauses-only-constrained", "C17", "fire T8", "src/check.rs",
-  """                            if let Type::Unsigned(expected) = ret_ty {
-                                check_or_constrain_unsigned(expr, expected)?;
-                            } else if let Type::Signed(expected) = ret_ty {
-                                check_or_constrain_signed(expr, expected)?;
+  """                            if let Type::Unsigned(_) | Type::Signed(_) = ret_ty {
+                                check_type(expr, &ret_ty)?;
                             } else {
                                 let e = TypeErrorEnum::UnexpectedType {
                                     expected: ret_ty.clone(),
@@ -2139,8 +2139,19 @@ M("l8-quiet-peek-form", "C09", "quiet", "src/parse.rs",
                 _ => Err(parser.errors),
             }""", "behaviour-preserving: exhaustion asked with peek inside one match")
 REVERT("revert-parse-arg-const-size", "C09", "fire L10", "b3e4698", "pre-fix tree: parse_arg tests against the unresolved `[T; N]` parameter type")
-REVERT("revert-range-bounds-gate", "C09", "fire L1 L11", "8247efd", "pre-fix tree: range ends never compared with the max of the element type")
-REVERT("revert-range-num-type", "C05", "fire S12", "8247efd", "pre-fix tree: `0..3` as [u8; 3] lowered with 32-bit elements")
+M2("revert-range-bounds-gate", "C09", "fire L1 L11", [
+  ("src/literal.rs", """                    && num_ty.max().is_none_or(|ty_max| max.saturating_sub(1) <= ty_max)""", ""),
+  ("src/check.rs", """                // the last element must be representable by the element type:
+                if num_ty.max().is_some_and(|max| to - 1 > max) {
+                    let e = TypeErrorEnum::InvalidRange(*from, *to);
+                    return Err(vec![Some(TypeError::new(e, meta))]);
+                }
+""", ""),
+  ], "pre-fix form of 8247efd: range ends never compared with the max of the element type")
+M("revert-range-num-type", "C05", "fire S12", "src/check.rs",
+  """                *num_ty = *expected;
+                if let Type::Array(actual, _) | Type::ArrayConst(actual, _) = &mut expr.ty {""",
+  """                if let Type::Array(actual, _) | Type::ArrayConst(actual, _) = &mut expr.ty {""", "pre-fix form of 8247efd: `0..3` as [u8; 3] keeps the unspecified number type in the node")
 M("l11-untyped-range-unchecked", "C09", "fire L11", "src/check.rs",
   """                if expected.max().is_some_and(|max| *to > *from && *to - 1 > max) {
                     let e = TypeErrorEnum::InvalidRange(*from, *to);
